@@ -18,11 +18,13 @@ CPU_BUDGET = 150
 REQUIRED_OBS = ["trees_round_tripped", "entries_compared", "modes_compared", "mtimes_compared"]
 RULE = ("generated trees (depth <= 5; empty and non-empty directories; files of size 0..; relative symlinks to files and directories, sideways and "
         "upward-but-inside; Unicode names; file modes 0o400..0o777, directory modes 0o500..0o777; mtimes 1970..2100 with 100 ns fractions) x entry point "
-        "{writeall+extractall, pack_7zarchive+unpack_7zarchive} x arcname None/given x source absolute/relative x dereference off/on x default filters / "
+        "{writeall+extractall, pack_7zarchive+unpack_7zarchive} x arcname None/given x source absolute/relative/'.' from inside the tree/absolute with the working directory inside "
+        "the tree x extraction into a given directory / into the current directory x link targets also spelled './t', 't/', 'a//t' x dereference off/on x default filters / "
         "password; the tree written into a fresh archive, after a member given as data, or appended to an existing archive. Half of the cases run as uid 65534 (root ignores permission bits). Oracle: lstat/readlink/read walk of the extracted tree vs the source: "
         "path set, kinds, bytes, link text, S_IMODE of files and directories, mtime within 5 microseconds. Cell = (entry point, arcname, source form, "
         "deref, uid, kinds present, has read-only dir).")
-ASSUMPTIONS = ["symlink modes/mtimes are not compared (the statement restricts modes and times to files and directories)",
+ASSUMPTIONS = ["top-level names that begin with a drive prefix or a backslash are not archived from inside the tree (source '.'): C16 has such prefixes stripped",
+               "symlink modes/mtimes are not compared (the statement restricts modes and times to files and directories)",
                "dereference=True only on trees whose directory links do not point at an ancestor (no finite dereferenced image otherwise)"]
 
 
@@ -35,8 +37,15 @@ def cases(rng, tier):
         if deref and (T.has_dir_link_cycle(tree) or not T.deref_image_is_finite(tree)):
             deref = False  # an upward or mutually recursive directory link has no finite dereferenced image
         out.append({"tree": tree, "entry": "shutil" if rng.random() < 0.15 and not deref else rng.choice(["writeall", "writeall", "writeall", "append", "after-writestr"]), "arcname": rng.choice([None, None, "arc", "deep/arc name"]),
-                    "source": rng.choice(["abs", "rel"]), "deref": deref, "password": rng.choice([None, None, None, "pässwörd"]),
+                    "source": rng.choice(["abs", "rel", "rel", "dot", "cwd-inside"]), "extract": rng.choice(["dst", "dst", "cwd"]), "deref": deref, "password": rng.choice([None, None, None, "pässwörd"]),
                     "uid": 65534 if i % 2 else 0, "chain": (G.chain(rng, aes=False) if rng.random() < 0.3 else None)})
+    import re
+
+    for c in out:
+        # C16 has write()/writeall() strip a drive prefix or leading separator from the names they store: a tree whose top-level
+        # names read 'c:...' or start with a backslash is, for source '.', outside what this property can promise
+        if c["source"] == "dot" and any(re.match(r"^([A-Za-z]:|\\\\)", e["path"]) for e in c["tree"]):
+            c["source"] = "rel"
     return out
 
 
@@ -115,7 +124,16 @@ def _body(case, d):
     cwd0 = os.getcwd()
     try:
         os.chdir(src_parent)
-        srcarg = src if case["source"] == "abs" else "src"
+        srcarg = src if case["source"] in ("abs", "cwd-inside") else "src"
+        if case["source"] == "dot" and case["entry"] != "shutil":
+            # from inside the tree: the tree is '.', its entries have no common top (unless an arcname is given)
+            os.chdir(src)
+            srcarg = "."
+        elif case["source"] == "cwd-inside" and case["entry"] != "shutil":
+            # the working directory is some directory of the tree, the tree is named by its absolute path
+            inner = sorted(e["path"] for e in case["tree"] if e["kind"] == "dir" and (e["mode"] & 0o500) == 0o500)
+            if inner:
+                os.chdir(os.path.join(src, inner[len(inner) // 2]))
         if case["entry"] == "shutil":
             try:
                 shutil.register_archive_format("7zip", py7zr.pack_7zarchive, description="7zip archive")
@@ -144,11 +162,19 @@ def _body(case, d):
             except py7zr.exceptions.UnsupportedCompressionMethodError:
                 return {"rejected": True}
             with py7zr.SevenZipFile(arc, "r", password=case["password"]) as z:
-                z.extractall(dst)
+                if case.get("extract") == "cwd":
+                    # into the current directory, as 'py7zr x archive' does
+                    os.makedirs(dst, exist_ok=True)
+                    os.chdir(dst)
+                    z.extractall()
+                else:
+                    z.extractall(dst)
             if case["arcname"] is not None:
                 top = os.path.join(dst, case["arcname"])
-            elif case["source"] == "abs":
+            elif case["source"] in ("abs", "cwd-inside"):
                 top = os.path.join(dst, src.lstrip("/"))
+            elif case["source"] == "dot":
+                top = dst
             else:
                 top = os.path.join(dst, "src")
     finally:
@@ -164,10 +190,15 @@ def _body(case, d):
         return {"viol": viol, "obs": obs}
     obs["trees_round_tripped"] = 1
     # root directory itself
+    rootless = case["source"] == "dot" and case["arcname"] is None and case["entry"] != "shutil"
+    if rootless:
+        got.pop("pre-existing.txt", None)
     st = os.lstat(top)
-    if stat.S_IMODE(st.st_mode) != root_mode:
+    if rootless:
+        pass  # '.' itself has no entry: the destination directory is the tree root
+    elif stat.S_IMODE(st.st_mode) != root_mode:
         viol.append({"key": "mode/dir", "what": "tree root: mode %o, source %o" % (stat.S_IMODE(st.st_mode), root_mode)})
-    if abs(st.st_mtime_ns - root_mtime) > 5000:
+    if not rootless and abs(st.st_mtime_ns - root_mtime) > 5000:
         viol.append({"key": "mtime/dir", "what": "tree root: mtime differs by %d ns" % (st.st_mtime_ns - root_mtime)})
     missing = sorted(set(want) - set(got))
     extra = sorted(set(got) - set(want))
